@@ -144,6 +144,24 @@ func (ls *laneSpec) exempt(l Term) Term {
 }
 
 // specBit: the prescribed bit `l` of a per-lane mask (0 for inactive lanes).
+// maskAtSkolemBit: the value the specification state receives for a 64-lane mask that the handler
+// writes to a scalar register pair as a whole word. It is the handler's own word with bit l (an
+// arbitrary position) replaced by the prescribed bit of lane l; equality of the final states for an
+// arbitrary l is equality of every bit of the mask (lanes of a recorded input class keep the handler's bit).
+func (ls *laneSpec) maskAtSkolemBit(key string) Term {
+	c := ls.ev.c
+	get, ok := ls.accExit[key]
+	if !ok {
+		return ls.full(key)
+	}
+	code := get()
+	l := ls.skBit(c)
+	one := BVShl(BVLitI(1, 64), l)
+	want := Ite(ls.exempt(l), BVAnd(BVLshr(code, l), BVLitI(1, 64)), ls.specBit(key, l))
+	m := BVOr(BVAnd(code, BVNot(one)), BVShl(BVAnd(want, BVLitI(1, 64)), l))
+	return c.Def("maskspec", Ite(BVUlt(l, BVLitI(64, 64)), m, code))
+}
+
 func (ls *laneSpec) specBit(key string, l Term) Term {
 	return Ite(ls.active(l), ls.bit(key, l), BVLitI(0, 64))
 }
@@ -330,17 +348,7 @@ func (f *Frame) laneCandidates(ls *laneSpec, L *Loop, iphi *ssa.Phi, initVals ma
 				// Step obligation in the form of the hypotheses of lemma `bitacc` (proved once, see
 				// bitAccLemma): the iteration changes at most bit i, and bit i becomes the prescribed bit.
 				cs = append(cs, laneCand{name: "phi." + ph.Comment + "." + key,
-					assume: func(st *State, pv map[*ssa.Phi]*Val) Term {
-						ts := []Term{inst(pv, skB), inst(pv, iTerm(pv))}
-						if kk != "VCCBIT" {
-							// the mask is written to a scalar register pair as a whole word after the loop:
-							// the (universally valid) clause is instantiated at every bit position
-							for l := int64(0); l < 64; l++ {
-								ts = append(ts, inst(pv, BVLitI(l, 64)))
-							}
-						}
-						return And(ts...)
-					},
+					assume: func(st *State, pv map[*ssa.Phi]*Val) Term { return And(inst(pv, skB), inst(pv, iTerm(pv))) },
 					goal:   func(st *State, pv map[*ssa.Phi]*Val) Term { return inst(pv, skB) },
 					step: func(hs, bs *State, head, next map[*ssa.Phi]*Val) Term {
 						i := iTerm(head)
